@@ -1,4 +1,5 @@
 """Symbolic execution of one go/ssa function into a VC (see vcgen.py)."""
+import os
 import struct
 from .smt import V, num, sym, and_, or_, not_, imp, ite, eq, INT_RANGES
 from .vcgen import Loc, State, Unsupported, ContractError, short_fn, san, MAXLEN
@@ -1471,8 +1472,11 @@ class Exec:
             return
         cf = self.prog.funcs.get(callee)
         short = cf.short if cf is not None else callee.rsplit('.', 1)[-1]
+        ordinal = self.call_ordinal(ins, short)
+        if os.environ.get('GOVC_CALLSITES'):
+            print('callsite %s %s#%d line %s' % (short_fn(self.prog, self.f.name), short, ordinal, ins.get('line')))
         for (nm, cl) in c.callsites:
-            if nm != short:
+            if nm != short and nm != '%s#%d' % (short, ordinal):
                 continue
             env = self.param_env()
             env.update(self.named)
@@ -1505,6 +1509,27 @@ class Exec:
             self.vc.assume(g2.term, self.reach)
             if 'cut' in cl.tags:
                 self.vc.cut = (n0, self.vc.cur_block)
+
+    def call_ordinal(self, ins, short):
+        """position of this call among the calls of the same callee in the function, in order of (line, block, index)"""
+        tab = getattr(self, '_call_ordinals', None)
+        if tab is None:
+            tab = self._call_ordinals = {}
+            sites = []
+            for b in self.f.blocks:
+                for k, i in enumerate(b['instrs']):
+                    if i['op'] == 'Call':
+                        c = i['call']
+                        nm = c.get('static') or (c.get('iface', '') + '.' + c.get('method', '')) if (c.get('static') or c.get('invoke')) else None
+                        if nm:
+                            cf = self.prog.funcs.get(nm)
+                            sh = cf.short if cf is not None else nm.rsplit('.', 1)[-1]
+                            sites.append((sh, i.get('line', 0), b['idx'], k, id(i)))
+            cnt = {}
+            for sh, ln, bi, k, ident in sorted(sites, key=lambda x: (x[0], x[1], x[2], x[3])):
+                tab[ident] = cnt.get(sh, 0)
+                cnt[sh] = cnt.get(sh, 0) + 1
+        return tab.get(id(ins), 0)
 
     def fresh_results(self, ins, rtypes=None):
         vc = self.vc
